@@ -184,6 +184,7 @@ def run(ctx):
     fault_pass(ctx)
     thread_pass(ctx)
     registration_pass(ctx)
+    foreign_options_pass(ctx)
     pressure_pass(ctx)
     called_mv_pass(ctx)
     derived_operand_pass(ctx)
@@ -529,7 +530,21 @@ def derived_operand_pass(ctx):
         x = alg.multivector(e1=1, e2=2, e123=5)
         if h: f_even(x)
         return f_odd(x)
-    scenarios = [sc_spell_accessor, sc_spell_keyword, sc_spell_blades, sc_spell_registered, sc_map_called, sc_map_num_to_sym, sc_map_num_to_sym_gp, sc_map_sym_to_num, sc_map_sym_to_sym, sc_index, sc_index_sym,
+    def sc_dual_then_undual_registered(alg, h):
+        def f_dual(x): return x.dual()
+        rf = alg.register(f_dual)
+        x = alg.multivector(e1=2, e2=3, e12=5)
+        if h: rf(x); x.undual(); alg.multivector(e1=1, e2=1, e12=1).undual()
+        return rf(x)
+    def sc_dual_undual_dual(alg, h):
+        x = alg.multivector(e1=2, e2=3, e12=5)
+        if h: x.dual(); x.undual()
+        return x.dual()
+    def sc_hodge_unhodge(alg, h):
+        x = alg.multivector(e1=2, e2=3, e123=5)
+        if h: x.unhodge(); x.hodge(); x.unhodge()
+        return x.hodge()
+    scenarios = [sc_dual_then_undual_registered, sc_dual_undual_dual, sc_hodge_unhodge, sc_spell_accessor, sc_spell_keyword, sc_spell_blades, sc_spell_registered, sc_map_called, sc_map_num_to_sym, sc_map_num_to_sym_gp, sc_map_sym_to_num, sc_map_sym_to_sym, sc_index, sc_index_sym,
                  sc_filter, sc_grade, sc_reg]
     def outcome(f, alg, h):
         try:
@@ -546,6 +561,42 @@ def derived_operand_pass(ctx):
             hist = outcome(f, Algebra(3, **kw), True)
             if fresh != hist:
                 ctx.violation('history-dependent', case, str(fresh)[:250], str(hist)[:250], key=f'history:derived-operand:{f.__name__}')
+
+
+def foreign_options_pass(ctx):
+    """an algebra B is used, then ANOTHER algebra A with unusual options (a codegen_symbolcls of its own: kingdon's Polynomial, a
+    wrapper, cse=False) is created and used, then B again - also a B created only afterwards: B's results (stored keys
+    included) are what they were before A existed"""
+    import sympy
+    from kingdon import Algebra
+    from kingdon.polynomial import Polynomial, RationalPolynomial
+    def run_B(alg):
+        out = []
+        for mk in (lambda n: Polynomial.fromname(n), lambda n: RationalPolynomial.fromname(n), lambda n: sympy.Symbol(n), lambda n: 3):
+            x = alg.multivector(keys=(1, 2), values=[mk('p'), mk('q')])
+            y = alg.multivector(keys=(1, 2), values=[mk('r'), mk('s')])
+            for nm, r in (('x-x', x - x), ('x^x', x ^ x), ('x*y', x * y), ('x+y', x + y)):
+                out.append((nm, tuple(int(k) for k in r.keys()), [str(v) for v in r.values()]))
+        return out
+    for wrapper in (None, ident):
+        kw = {'wrapper': wrapper} if wrapper else {}
+        B = Algebra(2, **kw)
+        before = run_B(B)
+        for aname, akw in (('codegen_symbolcls=Polynomial.fromname', {'codegen_symbolcls': Polynomial.fromname}), ('cse=False, wrapper', {'cse': False, 'wrapper': ident})):
+            A = Algebra(3, **akw)
+            a = A.multivector(keys=(1, 2, 4), values=[Polynomial.fromname('u'), Polynomial.fromname('v'), Polynomial.fromname('w')] if 'Polynomial' in aname else [1, 2, 3])
+            try:
+                a * a; a - a; a ^ a
+            except Exception as ex:
+                ctx.count('foreign-options:A-raises:' + type(ex).__name__)
+            for which, alg in (('the same B', B), ('a B created afterwards', Algebra(2, **kw))):
+                after = run_B(alg)
+                case = {'B': 'Algebra(2)' + (' with wrapper' if wrapper else ''), 'other_algebra_used_in_between': f'Algebra(3, {aname})', 'B_object': which}
+                ctx.case(case, tag='foreign-options')
+                if after != before:
+                    diff = [(b, a_) for b, a_ in zip(before, after) if b != a_][:2]
+                    ctx.violation('history-dependent', case, str([d[0] for d in diff])[:250], str([d[1] for d in diff])[:250], key='history:foreign-options')
+                    break
 
 
 def collision_search(ctx, ops=('gp',)):
